@@ -11,6 +11,7 @@ EXPLANATION = ("C11: on every receive path the wire-controlled length is validat
                "for the failure of a single connection; websocket size limits sum over the list the frames are collected in."
                " Also: an endpoint stores the caller's accept aio before it calls the helper that serves it (R6); the udp DATA handler gets the datagram size minus the header (R8).")
 EXPLANATION += ' Round 3: every protocol message pump (callbacks of aios armed with nni_pipe_recv / nni_msgq_aio_get) re-arms, closes or forwards after it consumed a message (R9); the udp DATA length is compared with the bytes that arrived (R10).'
+EXPLANATION += ' Round 6: wire words stay unsigned until range-checked (R14); a sleep until a deadline is not computed from a deadline in the past (R15); the cool-down timer of an accept loop accepts again whenever it fires (R4).'
 
 STREAM_RECV = [("tcptran_pipe_recv_cb", "transport/tcp/tcp.c"), ("ipc_pipe_recv_cb", "transport/ipc/ipc.c"),
                ("sfd_tran_pipe_recv_cb", "transport/socket/sockfd.c")]
